@@ -464,7 +464,7 @@ def rule_sigma(repo, tier):
     f = repo.func(UKF, 'UKF.forward')
     tags = {}          # variable -> set of ('p'|'w', draw number)
     draws = []         # (call node, k expression source)
-    obs_from, predcov, from_pred = [], set(), {}
+    obs_from, predcov, from_pred, centre = [], set(), {}, {}
 
     def deps(e):
         out = set()
@@ -516,6 +516,8 @@ def rule_sigma(repo, tier):
                     k = len(draws) + 1
                     c = st.value
                     from_pred[k] = len(c.args) > 1 and isinstance(c.args[1], ast.Name) and c.args[1].id in predcov
+                    # centre of the draw: a weighted mean of propagated points (the predicted mean) or the prior mean parameter
+                    centre[k] = (isinstance(c.args[0], ast.Name) and any(t_[0] == 'w' for t_ in tags.get(c.args[0].id, ()))) if c.args else False
                     kexp = c.args[2] if len(c.args) > 2 else next((kw.value for kw in c.keywords if kw.arg == 'k'), None)
                     draws.append((c, src(kexp) if kexp is not None else '<default>'))
                     for t in st.targets:
@@ -542,6 +544,12 @@ def rule_sigma(repo, tier):
     for c_, ds in obs_from:
         ok = bool(ds) and from_pred.get(max(ds), False)
         res.inst({'function': f.fq, 'observation': src(c_)[:60], 'points of draw': sorted(ds), 'drawn from the predicted covariance (with Q)': ok}, ('obs', src(c_)[:60]))
+        okc = bool(ds) and centre.get(max(ds), False)
+        res.inst({'function': f.fq, 'observation': src(c_)[:60], 'sigma points centred on the predicted mean': okc}, ('obs-centre', src(c_)[:60]))
+        if ok and not okc:
+            res.add(Finding('C13.SIGMA', f, 'the sigma points pushed through the observation model are drawn around the PRIOR mean, not around the predicted mean (the weighted '
+                            'mean of the propagated points): the predicted observation is h(x) instead of h(x^-), so the posterior mean is wrong for every transition that '
+                            'moves the mean', node=c_, construct='observation points centred on the prior mean'))
         if not ok:
             res.add(Finding('C13.SIGMA', f, 'the sigma points pushed through the observation model (`%s`) are not re-drawn from the predicted mean and the predicted '
                             'covariance compute_cov(ex, ex, w, Q): the measurement update then spreads the points with the prior covariance only and the process '
